@@ -24,6 +24,19 @@ def sq(v):
   return core.sumv([arith("*", x, x) for x in c])
 
 
+def nsq_uf(v):
+  """|v|^2 as an uninterpreted function of the components (kernel-level units: keeps queries in EUF + linear arithmetic; every
+  fact stated about it is true for the polynomial sum of squares, which is what the contract units prove)"""
+  c = [core.to_z3(x, "real") for x in (v.c if isinstance(v, Vec) else list(v))]
+  return z3.Function(f"nsq{len(c)}", *([R] * len(c)), R)(*c)
+
+
+def is_rot_uf(m):
+  """'m is a proper rotation' (R R^T = I, det R = 1) as an uninterpreted predicate (see contract/quat_to_mat)"""
+  c = [core.to_z3(x, "real") for x in m.c]
+  return z3.Function("proper_rotation", *([R] * 9), z3.BoolSort())(*c)
+
+
 def is_zero(v):
   return z3.And(*[core.zbool(core.cmp("==", x, 0)) for x in v.c])
 
@@ -36,9 +49,11 @@ class CInterp(Interp):
   """Interp whose `wp.normalize` is (a) corrected for Warp's quaternion overload (zero quaternion -> (0,0,0,1)) and
   (b) optionally replaced by its contract (fresh result constrained by the contract) to keep queries small."""
 
-  def __init__(self, *a, normalize_contract=True, **k):
+  def __init__(self, *a, normalize_contract=True, norm="poly", **k):
     super().__init__(*a, **k)
     self.normalize_contract = normalize_contract
+    self.nsq = sq if norm == "poly" else nsq_uf
+    self.norm = norm
     self.normalized = []  # (input Vec, output Vec)
 
   def builtin(self, fr, key, args, e):
@@ -47,10 +62,10 @@ class CInterp(Interp):
       zero = Vec([0.0, 0.0, 0.0, 1.0], x.shape, x.dt) if x.dt == "quat" else Vec([0.0] * len(x.c), x.shape, x.dt)
       if all(not core.is_sym(c) for c in x.c):
         return super().builtin(fr, key, args, e) if any(c != 0 for c in x.c) else zero
-      s = sq(x)
+      s = self.nsq(x) if self.normalize_contract else sq(x)
       if self.normalize_contract:
         n = fresh_vec(self, len(x.c), x.shape, x.dt, "nrm")
-        self.assumes.append(z3.Implies(s != 0, sq(n) == 1))
+        self.assumes.append(self.nsq(n) == 1 if x.dt == "quat" else z3.Implies(s != 0, self.nsq(n) == 1))
         self.assumes.append(z3.Implies(s == 0, z3.And(*[c == z for c, z in zip(n.c, zero.c)])))
       else:
         l = self.sqrt(s)
@@ -67,14 +82,20 @@ class CInterp(Interp):
 def s_mul_quat(it, fr, args):
   a, b = args
   o = fresh_vec(it, 4, (4,), "quat", "mulq")
-  it.assumes.append(sq(o) == sq(a) * sq(b))
+  N = it.nsq
+  if it.norm == "poly":
+    it.assumes.append(N(o) == N(a) * N(b))
+  else:  # consequences of the product rule, free of multiplication
+    it.assumes.append(z3.Implies(z3.And(N(a) == 1, N(b) == 1), N(o) == 1))
+    it.assumes.append(z3.Implies(z3.And(N(a) != 0, N(b) != 0), N(o) != 0))
   return o
 
 
 def s_axis_angle(it, fr, args):
   ax, ang = args
   o = fresh_vec(it, 4, (4,), "quat", "aa")
-  it.assumes.append(z3.Implies(z3.Or(sq(ax) == 1, z3.And(is_zero(ax), core.zbool(core.cmp("==", ang, 0)))), sq(o) == 1))
+  N = it.nsq
+  it.assumes.append(z3.Implies(z3.Or(N(ax) == 1, z3.And(is_zero(ax), core.zbool(core.cmp("==", ang, 0)))), N(o) == 1))
   return o
 
 
@@ -87,7 +108,7 @@ def s_rot_vec_quat(it, fr, args):
 def s_quat_to_mat(it, fr, args):
   (q,) = args
   m = fresh_vec(it, 9, (3, 3), "f", "q2m")
-  it.assumes.append(z3.Implies(sq(q) == 1, proper_rotation(m)))
+  it.assumes.append(z3.Implies(it.nsq(q) == 1, proper_rotation(m) if it.norm == "poly" else is_rot_uf(m)))
   return m
 
 
@@ -114,7 +135,7 @@ def qi_uf(q, v, dt):
 def s_quat_integrate(it, fr, args):
   q, v, dt = args
   o = qi_uf(q, v, dt)
-  it.assumes.append(sq(o) == 1)
+  it.assumes.append(it.nsq(o) == 1)
   return o
 
 
